@@ -395,6 +395,10 @@ impl Prop for C07 {
                 2 => Just(String::new()),
                 2 => prop::sample::select(table.to_vec()).prop_map(|s| s.to_string()),
                 1 => "[1-9][0-9]{0,24}",
+                // exactly as many digits as the largest value of the field (20 for u64, 10 for u32): numbers just
+                // beyond the range that may wrap to anything
+                1 => "[1-9][0-9]{19}",
+                1 => "[4-9][0-9]{9}",
             ]
         };
         (
